@@ -360,6 +360,11 @@ def part_stages(r, work, table_path, quick, rnd, seed):
     for env, nm in ((None, "c07s"), (nojit, "c07sn")):
         cs = [dict(c, id=c["id"] + ("-nojit" if env else ""), tag=c["tag"] + ("|nojit" if env else "")) for c in scases]
         account(r, cs, replay_robust(cs, work, nm, env_extra=env, timeout_ms=10000), "stages")
+    # impl -> spec: the interpreter's event trace of every stage x context case must be a behaviour of
+    # spec/Vm.tla: an error unwinds to the frame that carries the handler or ends the instalment, the
+    # caller's frames survive a failing nested instalment, and the next unit starts on empty stacks
+    # (flag C07-residue-on-the-stacks-of-an-idle-engine)
+    vlib.vm_trace_check(r, scases, work, "c07s")
     # residue: every run-time failing unit repeated on one engine, depth probe after each
     # (not the two stages that are known to panic: a panic ends the case at its first repetition)
     rep = sorted((c for c in srecs if c["st"] == "run" and c["stage"] not in ("rt-assert", "rt-stream-tail")),
